@@ -5096,8 +5096,17 @@ impl<'a, 'graph> Builder<'a, 'graph> {
           }
           let base_url = self.jsr_url_provider.package_url(nv);
           let export_name = resolution_item.nv_ref.export_name();
-          match version_info.export(&export_name) {
-            Some(export_value) => {
+          // an export whose value does not join onto the package url is as
+          // good as absent
+          let maybe_export =
+            version_info.export(&export_name).and_then(|export_value| {
+              base_url
+                .join(export_value)
+                .ok()
+                .map(|specifier| (export_value, specifier))
+            });
+          match maybe_export {
+            Some((export_value, specifier)) => {
               self.graph.packages.add_export(
                 nv,
                 (
@@ -5109,7 +5118,6 @@ impl<'a, 'graph> Builder<'a, 'graph> {
                 self.graph.packages.add_top_level_package(nv.clone());
               }
 
-              let specifier = base_url.join(export_value).unwrap();
               self
                 .graph
                 .redirects
